@@ -7,6 +7,7 @@ import numpy
 from hypothesis import strategies as st
 
 from .. import arr as A
+from .. import modelslice as MS
 from ..core import sstr, Failure, drive, drive_enum
 from ..ref import commands as R
 
@@ -214,7 +215,17 @@ def same_mask(*arrs):
     return all((numpy.ma.getmaskarray(a) == m0).all() for a in arrs[1:])
 
 
-PARTS = {"op": check_op, "laws": check_laws}
+MODEL_CMDS = ["CvtToFuzzy", "Copy", "FuzzyNot", "FuzzyOr", "FuzzyAnd", "FuzzyXOr", "FuzzyUnion", "FuzzyWeightedUnion", "FuzzySelectedUnion"]
+LOGIC = set(MODEL_CMDS) - {"CvtToFuzzy", "Copy"}
+
+
+def check_model(model, rec):
+    """Whole models of fuzzy-logic operators over shared inputs: every operator result equals the definition applied
+    to the reference values of its inputs, whatever ran before it."""
+    return MS.model_failures(model, rec, lambda sig, cmd: cmd in LOGIC, "model")
+
+
+PARTS = {"op": check_op, "laws": check_laws, "model": check_model}
 
 
 # --------------------------------------------------------------------------- generators
@@ -298,6 +309,7 @@ def laws_lattice_cases(ctx):
 
 
 def run_shard(ctx, rec):
+    drive(ctx, rec, "model", MS.model_cases(cmds=MODEL_CMDS), check_model, ctx.n(1200, 20000))
     drive_enum(ctx, rec, "op", lattice_cases(ctx), check_op, exhaustive=True)
     drive_enum(ctx, rec, "laws", laws_lattice_cases(ctx), check_laws, exhaustive=True)
     drive(ctx, rec, "op", random_op_case(), check_op, ctx.n(2500, 60000))
